@@ -189,6 +189,87 @@ def _envelope_walk(run):
               message="SgxQeCertData no longer reads its data through SgxQeAuthData's constructor / total size")
 
 
+def _pem_chain(run, PV):
+    """R3c: the certificates taken out of the QE certification data."""
+    P, A = run.P, run.A
+    from sa.decide import Walker, subst
+    run.rule("R3c", "PEM chain: SgxQeCertData.certs is, in order, x.replace(START, b'') for every piece x of data.split(END) whose stripped text starts with START "
+             "(START / END the X.509 PEM markers with their line breaks) - whether written with map / filter, a comprehension or a loop.")
+    QC = P.cls("sgx.envelope.SgxQeCertData")
+    fn = P.method(QC, "__init__")
+    g = A.cfg(fn, QC)
+    locs = set(PV.defs(fn, QC)) | set(fn.params)
+    run.check("R3c", P.class_const(QC, "X509_START_MARKER") == b"-----BEGIN CERTIFICATE-----\n" and P.class_const(QC, "X509_END_MARKER") == b"\n-----END CERTIFICATE-----\n",
+              "PEM markers", key="SgxQeCertData|markers", where=QC.module.relpath, message="the X.509 PEM markers of SgxQeCertData changed")
+
+    def F(e):
+        return _strip(norm(fold_consts(P, e, fn, QC, locals_=locs)))
+
+    def triple_of_expr(e):
+        """(sequence, condition, element) texts with the variable written $x, from map/filter or a comprehension"""
+        if isinstance(e, ast.Call) and isinstance(e.func, ast.Name) and e.func.id in ("list", "tuple") and len(e.args) == 1:
+            e = e.args[0]
+        if isinstance(e, (ast.ListComp, ast.GeneratorExp)) and len(e.generators) == 1 and isinstance(e.generators[0].target, ast.Name):
+            ge = e.generators[0]
+            v = ge.target.id
+            cond = ge.ifs[0] if len(ge.ifs) == 1 else (ast.BoolOp(op=ast.And(), values=ge.ifs) if ge.ifs else ast.Constant(value=True))
+            ren = {v: ast.Name(id="X_", ctx=ast.Load())}
+            return F(ge.iter), F(subst(cond, ren)), F(subst(e.elt, ren))
+        if isinstance(e, ast.Call) and call_name(e) == "map" and len(e.args) == 2 and isinstance(e.args[0], ast.Lambda) and len(e.args[0].args.args) == 1:
+            mv = e.args[0].args.args[0].arg
+            elt = subst(e.args[0].body, {mv: ast.Name(id="X_", ctx=ast.Load())})
+            src = e.args[1]
+            cond = ast.Constant(value=True)
+            if isinstance(src, ast.Call) and call_name(src) == "filter" and len(src.args) == 2 and isinstance(src.args[0], ast.Lambda) and len(src.args[0].args.args) == 1:
+                fv = src.args[0].args.args[0].arg
+                cond = subst(src.args[0].body, {fv: ast.Name(id="X_", ctx=ast.Load())})
+                src = src.args[1]
+            return F(src), F(cond), F(elt)
+        return None
+    want = (F(ast.parse("self.data.split(self.X509_END_MARKER)", mode="eval").body),
+            F(ast.parse("X_.strip().startswith(self.X509_START_MARKER)", mode="eval").body),
+            F(ast.parse("X_.replace(self.X509_START_MARKER, b'')", mode="eval").body))
+    stores = [n for n in A.own_nodes(fn) if isinstance(n, ast.Assign) and any(norm(t) == "self.certs" for t in n.targets)]
+    run.check("R3c", len(stores) == 1, "self.certs is stored once", key="SgxQeCertData|certs-stores", where=fn.loc(), message=f"SgxQeCertData.__init__ stores self.certs {len(stores)} times")
+    if len(stores) != 1:
+        return
+    got = None
+    for cn in g.nodes_of(stores[0]):
+        for x in PV.expand_consistent(fn, QC, stores[0].value, cn):
+            try:
+                got = triple_of_expr(ast.parse(x, mode="eval").body)
+            except SyntaxError:
+                got = None
+    if got is None:
+        # a loop that appends: one iteration as a table
+        loops = [n for n in A.own_nodes(fn) if isinstance(n, ast.For) and isinstance(n.target, ast.Name)]
+        run.require(len(loops) == 1, "SgxQeCertData.__init__: the certificate chain is built neither by an expression nor by one loop (idiom not understood)")
+        lp = loops[0]
+        v = lp.target.id
+        ren = {v: ast.Name(id="X_", ctx=ast.Load())}
+        head = [n for n in g.nodes if n.kind == "for" and n.ast is lp]
+        item = [n for n in g.nodes if n.kind == "T" and n.note == "has-item" and n.cond in head]
+        run.require(len(head) == 1 and len(item) == 1, "SgxQeCertData.__init__: loop structure not understood")
+        conds, elts, bad = set(), set(), []
+        for lf in Walker(A, fn, QC, lambda e: None, max_leaves=16).walk(item[0], stops={head[0]}):
+            pushes = [v_ for k_, st_, v_ in lf.effects if k_ == "expr" and isinstance(v_, ast.Call) and call_name(v_) == "append"]
+            ks = [(F(subst(ast.parse(k[1:], mode="eval").body, ren)), b) for k, b in lf.pc.items() if k.startswith("?")]
+            if lf.kind != "stop" or len(ks) != 1 or len(pushes) > 1:
+                bad.append(lf.kind)
+                continue
+            cnd, pol = ks[0]
+            if pushes:
+                conds.add(cnd if pol else f"not {cnd}")
+                elts.add(F(subst(lf.deep(pushes[0].args[0]), ren)))
+            else:
+                conds.add(f"not {cnd}" if pol else cnd)
+        got = (F(lp.iter), next(iter(conds)) if len(conds) == 1 else f"?{sorted(conds)}", next(iter(elts)) if len(elts) == 1 else f"?{sorted(elts)}") if not bad else None
+        # the list the loop appends to is what is stored
+    run.check("R3c", got == want, "the certificate chain is the marked pieces of the data, in order, without their start marker", key="SgxQeCertData|certs", where=fn.loc(stores[0]),
+              message=f"SgxQeCertData takes its certificates as (pieces, condition, element) = {got}; expected {want}: a genuine chain would lose or corrupt a certificate "
+                      "(bytes of its body taken for marker characters, a certificate skipped) and the attestation could not be gathered or verified")
+
+
 def _endorsement_parse(run, PV, DA, gd, gg, se, gs):
     """R2t: which bytes of the BOLOS answers become the certificate fields (absolute offsets, whatever the way the answer is walked)."""
     P, A = run.P, run.A
@@ -778,6 +859,7 @@ def run(run):
     # (which bytes of the answers become message / pubkey / signature: rule R2t)
     _endorsement_parse(run, PV, DA, gd, gg, se, gs)
     _envelope_walk(run)
+    _pem_chain(run, PV)
     roles = P.enum_members(P.cls("admin.dongle_admin._Role"))
     run.check("R2", roles["DEVICE"].value == 0x02 and roles["ENDORSEMENT"].value == 0xFF, "role bytes (device 0x02, endorsement 0xFF)",
               key="_Role|values", where="middleware/admin/dongle_admin.py", message=f"_Role values changed: {roles}")
